@@ -340,3 +340,170 @@ func freshObject(v ssa.Value) bool {
 	}
 	return false
 }
+
+func init() {
+	register(&Rule{ID: "L7", Min: 10, Text: "reference-count protocol of the named-lock table (pkg/locker): in Lock/RLock/TryLock the waiter increment happens while the table mutex is held and the blocking acquisition of the named lock comes only after the table mutex was released (holding it across a blocking lock deadlocks every other key); in Unlock/RUnlock the named lock is released, the counter decremented, tested and the entry deleted — in that order, all inside the table's critical section, and the entry is deleted only on the edge where the count is zero (otherwise a goroutine about to wait would lock an entry that is no longer in the table, and two goroutines hold 'the same' lock)",
+		Run: func(x *Ctx) {
+			g := guardedField{"pkg/locker", "Locker", "mu", nil, ""}
+			callNamed := func(fn *ssa.Function, recvType, name string) []ssa.CallInstruction {
+				var out []ssa.CallInstruction
+				for _, c := range prog.CallsIn(fn) {
+					o := prog.CallObj(c)
+					if o == nil || o.Name() != name {
+						continue
+					}
+					if r := recvOf(c); r != nil && namedOf(r.Type()) != nil && namedOf(r.Type()).Obj().Name() == recvType {
+						out = append(out, c)
+					}
+				}
+				return out
+			}
+			for _, m := range []struct{ name, block string }{{"Lock", "Lock"}, {"RLock", "RLock"}, {"TryLock", "TryLock"}} {
+				fn := x.fn("pkg/locker.(*Locker)." + m.name)
+				if fn == nil {
+					continue
+				}
+				k := "func=" + prog.FnName(fn)
+				acqs, rels := mutexOps(fn, g.Type, g.Mutex)
+				incs := callNamed(fn, "lockCtr", "inc")
+				blocks := callNamed(fn, "lockCtr", m.block)
+				if len(incs) != 1 || len(blocks) != 1 || len(acqs) == 0 {
+					x.fail(k+" shape", x.fpos(fn), "expected one waiter increment and one acquisition of the named lock under the table mutex")
+					continue
+				}
+				x.check(heldMutex(incs[0], acqs[0].Base, acqs, rels, true), k+" increment-under-table-mutex", x.pos(incs[0]), "the waiter is counted before the table mutex is released",
+					"the waiter increment is outside the table's critical section: a concurrent Unlock can delete the entry this goroutine is about to wait on")
+				// the blocking call: a non-deferred release dominates it and no re-acquisition lies between
+				released := false
+				for _, r := range rels {
+					if r.Defer || !prog.Dominates(r.Ins, blocks[0]) {
+						continue
+					}
+					re := false
+					for _, a := range acqs {
+						if prog.MayPrecede(r.Ins, a.Ins) && prog.MayPrecede(a.Ins, blocks[0]) {
+							re = true
+						}
+					}
+					if !re {
+						released = true
+					}
+				}
+				x.check(released, k+" named-lock-acquired-after-table-mutex-released", x.pos(blocks[0]), "the blocking acquisition happens outside the table's critical section",
+					"the named lock is acquired while the table mutex is still held: one contended key blocks every Lock/Unlock of every other key")
+				x.check(prog.Dominates(incs[0], blocks[0]), k+" increment-before-acquire", x.pos(blocks[0]), "counted, then acquired", "the named lock is acquired before the waiter is counted")
+			}
+			for _, m := range []struct{ name, rel string }{{"Unlock", "Unlock"}, {"RUnlock", "RUnlock"}} {
+				fn := x.fn("pkg/locker.(*Locker)." + m.name)
+				if fn == nil {
+					continue
+				}
+				k := "func=" + prog.FnName(fn)
+				acqs, rels := mutexOps(fn, g.Type, g.Mutex)
+				rel := callNamed(fn, "lockCtr", m.rel)
+				dec := callNamed(fn, "lockCtr", "dec")
+				cnt := callNamed(fn, "lockCtr", "count")
+				var del ssa.CallInstruction
+				for _, c := range prog.CallsIn(fn) {
+					if bi, ok := c.Common().Value.(*ssa.Builtin); ok && bi.Name() == "delete" {
+						del = c
+					}
+				}
+				if len(rel) != 1 || len(dec) != 1 || len(cnt) != 1 || del == nil || len(acqs) == 0 {
+					x.fail(k+" shape", x.fpos(fn), "expected release, decrement, count test and delete under the table mutex")
+					continue
+				}
+				for _, s := range []struct {
+					c    ssa.Instruction
+					what string
+				}{{rel[0], "release"}, {dec[0], "decrement"}, {cnt[0], "count"}, {del, "delete"}} {
+					x.check(heldMutex(s.c, acqs[0].Base, acqs, rels, true), k+" "+s.what+"-under-table-mutex", x.pos(s.c), "inside the table's critical section",
+						"the "+s.what+" happens outside the table's critical section")
+				}
+				x.check(prog.Dominates(rel[0], dec[0]) && prog.Dominates(dec[0], cnt[0]), k+" order release-decrement-test", x.pos(dec[0]), "released, then decremented, then tested", "release, decrement and test are not in that order")
+				count := VP{"waiter count", func(v ssa.Value) bool { return v == cnt[0].Value() }}
+				x.guardedSite(k+" delete-only-if-count-zero", del, []Cmp{{L: count, R: vpConst(0), Want: EQ}}, nil)
+			}
+		}})
+}
+
+func init() {
+	register(&Rule{ID: "L1.map", Min: 8, Text: "the named-lock façade maps each operation to the matching primitive with its own key: LockerManager.Locker → Lock, LockerWithRLock → RLock, LockerWithTryLock → TryLock (and its result is what is returned), Locker.Unlock → Unlock, Locker.RUnlock → RUnlock of pkg/locker, every one with the key the façade object was created with",
+		Run: func(x *Ctx) {
+			sp := "server/backend/sync"
+			keyF := x.P.Field(sp + ".internalLocker.key")
+			if keyF == nil {
+				x.C.Unresolved(x.id(), sp+".internalLocker.key")
+				return
+			}
+			// transitive: the method reaches exactly the named primitive of pkg/locker (through the unexported forwarding methods)
+			var reach func(fn *ssa.Function, depth int, seen map[*ssa.Function]bool) map[string]bool
+			reach = func(fn *ssa.Function, depth int, seen map[*ssa.Function]bool) map[string]bool {
+				out := map[string]bool{}
+				if fn == nil || seen[fn] || depth > 3 {
+					return out
+				}
+				seen[fn] = true
+				for _, c := range prog.CallsIn(fn) {
+					o := prog.CallObj(c)
+					if o == nil || o.Pkg() == nil {
+						continue
+					}
+					if strings.HasSuffix(o.Pkg().Path(), "/pkg/locker") {
+						keyed := false
+						for _, a := range c.Common().Args {
+							if prog.LoadedField(a) == keyF {
+								keyed = true
+							}
+						}
+						if keyed {
+							out[o.Name()] = true
+						} else {
+							out[o.Name()+"(wrong key)"] = true
+						}
+						continue
+					}
+					if strings.HasSuffix(o.Pkg().Path(), "/"+sp) {
+						for _, callee := range x.P.Callees(c) {
+							for k := range reach(callee, depth+1, seen) {
+								out[k] = true
+							}
+						}
+					}
+				}
+				return out
+			}
+			for _, m := range []struct{ spec, want string }{
+				{sp + ".(*LockerManager).Locker", "Lock"},
+				{sp + ".(*LockerManager).LockerWithRLock", "RLock"},
+				{sp + ".(*LockerManager).LockerWithTryLock", "TryLock"},
+				{sp + ".(*internalLocker).Unlock", "Unlock"},
+				{sp + ".(*internalLocker).RUnlock", "RUnlock"},
+				{sp + ".(*internalLocker).RLock", "RLock"},
+				{sp + ".(*internalLocker).lock", "Lock"},
+				{sp + ".(*internalLocker).tryLock", "TryLock"},
+			} {
+				fn := x.fn(m.spec)
+				if fn == nil {
+					continue
+				}
+				got := reach(fn, 0, map[*ssa.Function]bool{})
+				ok := len(got) == 1 && got[m.want]
+				var gs []string
+				for k := range got {
+					gs = append(gs, k)
+				}
+				x.check(ok, "method="+strings.TrimPrefix(m.spec, sp+".")+" maps-to="+m.want, x.fpos(fn), "forwards to locker."+m.want+" with its own key",
+					"the façade method reaches "+strings.Join(gs, ",")+" instead of exactly locker."+m.want+" with its own key: the wrong lock, mode or key is used")
+			}
+			if fn := x.fn(sp + ".(*LockerManager).LockerWithTryLock"); fn != nil {
+				ok := false
+				for _, r := range prog.Returns(fn) {
+					if c, isC := prog.Strip(prog.ReturnValue(r, 1)).(*ssa.Call); isC && prog.CallObj(c) != nil && strings.EqualFold(prog.CallObj(c).Name(), "tryLock") {
+						ok = true
+					}
+				}
+				x.check(ok, "method=LockerWithTryLock returns-tryLock-result", x.fpos(fn), "the caller learns whether the lock was taken", "LockerWithTryLock does not return the result of the try: callers proceed without the lock")
+			}
+		}})
+}
